@@ -261,3 +261,4 @@ def concrete_inputs_consolidate(model):
             b.flags.writeable = False
         out.append(dict(cls=TypeBlocks, raw_blocks=blocks))
     return out
+
